@@ -13,11 +13,12 @@ import json, random
 from vlib.core import Inconclusive
 
 PROFILES = [("obfs2", "client", 16 + 8 + 300), ("obfs2", "server", 16 + 8 + 300), ("obfs3", "client", 192 + 100), ("obfs3", "server", 192 + 100),
-            ("obfs4", "client", 96 + 100 + 45), ("obfs4", "server", 64 + 200), ("scramblesuit", "client", 192 + 100 + 32)]
+            ("obfs4", "client", 96 + 100 + 45), ("obfs4", "server", 64 + 200), ("scramblesuit", "client", 192 + 100 + 32), ("scramblesuit-ticket", "client", 0)]
 MARKS = {"obfs2": [0, 1, 15, 16, 17, 23, 24, 25], "obfs3": [0, 1, 191, 192, 193], "obfs4": [0, 1, 31, 32, 33, 63, 64, 65, 95, 96],
-         "scramblesuit": [0, 1, 191, 192, 193]}
+         "scramblesuit": [0, 1, 191, 192, 193], "scramblesuit-ticket": [0]}
 MALFORMED = {"obfs4": ["shortframe", "emptyframe", "lenbeyond", "unknowntype", "seedsize", "manyempty"],
-             "scramblesuit": ["unknownflags", "lenbeyond", "totalbeyond", "ticketsize", "seedsize", "manyempty"]}
+             "scramblesuit": ["unknownflags", "lenbeyond", "totalbeyond", "ticketsize", "seedsize", "manyempty"],
+             "scramblesuit-ticket": ["unknownflags", "lenbeyond", "totalbeyond"]}
 
 
 def run(ctx):
@@ -28,15 +29,17 @@ def run(ctx):
     scen = []
     k = 0
     for tr, role, hslen in PROFILES:
-        cuts = sorted(set(MARKS[tr] + [hslen - 33, hslen - 32, hslen - 17, hslen - 16, hslen - 1, hslen, hslen + 1] +
+        cuts = [0] if hslen == 0 else sorted(set(MARKS[tr] + [hslen - 33, hslen - 32, hslen - 17, hslen - 16, hslen - 1, hslen, hslen + 1] +
                           ([rng.randrange(0, hslen) for _ in range(6)] if quick else list(range(0, hslen + 2)))))
+        if hslen == 0:     # a one-message handshake: nothing comes back, so there is no handshake input to cut or flood
+            cuts = []
         for at in cuts:
             if at < 0:
                 continue
             hows = ["eof", "err", "deadline"] if (not quick or at in MARKS[tr][:4] or at % 3 == 0) else [rng.choice(["eof", "err", "deadline"])]
             for how in hows:
                 scen.append({"id": "cut%d" % k, "transport": tr, "role": role, "kind": "cut", "at": at, "how": how, "seed": k}); k += 1
-        for chunk in ([1000] if quick else [1, 100, 1000, 8192, 20000]):
+        for chunk in ([] if hslen == 0 else [1000] if quick else [1, 100, 1000, 8192, 20000]):
             scen.append({"id": "junk%d" % k, "transport": tr, "role": role, "kind": "junk", "how": "eof", "chunk": chunk, "seed": k}); k += 1
         for how in ("eof", "err", "garbage"):
             for rep in range(1 if quick else 4):
@@ -68,7 +71,7 @@ def run(ctx):
                         "'wedged' = the call has not returned 10 s after the fault was delivered while the wire shows nothing left to read",
                         "SOCKS5 (C17) and meek_lite (C16) faults are exercised by their own drivers; the Go runtime's panic on nil OpError.Err etc. is out of scope"]
     return ctx.finish("model_checking", extra_cov={"fault_scenarios": len(traces), "by_kind": kinds,
-                      "rule": "7 transport/role profiles x (cut positions at field boundaries + random, thorough: every byte) x (EOF, error, deadline) + junk floods + "
+                      "rule": "8 transport/role profiles (incl. the ScrambleSuit session-ticket handshake of a second connection) x (cut positions at field boundaries + random, thorough: every byte) x (EOF, error, deadline) + junk floods + "
                               "data-phase cuts / garbage + authenticated malformed packets + stale-timer probes"})
 
 
